@@ -8,6 +8,7 @@ package bridge
 import (
 	"github.com/miekg/dns"
 
+	"github.com/semihalev/sdns/internal/authority"
 	icache "github.com/semihalev/sdns/internal/cache"
 	"github.com/semihalev/sdns/internal/wire"
 )
@@ -30,3 +31,6 @@ func CacheKey(q dns.Question, cd bool) uint64 { return icache.Key(q, cd) }
 
 func TryPack(msg *dns.Msg, consume func([]byte) error) (bool, error) { return wire.TryPack(msg, consume) }
 func PackClone(msg *dns.Msg) ([]byte, error)                         { return wire.PackClone(msg) }
+
+// VerifSetRandN pins authority.Sort's tie-break randomness.
+func SetAuthorityRandN(f func(int) int) func(int) int { return authority.VerifSetRandN(f) }
